@@ -440,6 +440,9 @@ class NPProxy:
         return np.copy(a, **kw)
 
     def linspace(self, start, stop, num=50, endpoint=True, **kw):
+        if getattr(start, '_fp', False) or getattr(stop, '_fp', False):
+            from . import fp
+            return fp.flinspace(start, stop, num, endpoint).view(SymArr)
         if _is_sym(start) or _is_sym(stop):
             num = int(num)
             div = (num - 1) if endpoint else num
@@ -455,7 +458,22 @@ class NPProxy:
 
     def arange(self, *args, **kw):
         if builtins.any(_is_sym(a) for a in args):
-            raise HarnessError("arange with symbolic bounds: needs explicit modelling")
+            if len(args) == 1:
+                start, stop, step = 0, args[0], 1
+            elif len(args) == 2:
+                start, stop, step = args[0], args[1], 1
+            else:
+                start, stop, step = args[:3]
+            if builtins.any(getattr(a, '_fp', False) for a in args):
+                from . import fp
+                return fp.farange(start, stop, step).view(SymArr)
+            # exact reals: length ceil((stop-start)/step), forked over its feasible values
+            n = core.smax(core.ceil(Sym(lift((stop - start) / step))), 0)
+            k = core.concretize_int(n)
+            out = np.empty(k, dtype=object)
+            for i in range(k):
+                out[i] = start + i * step
+            return out.view(SymArr)
         return np.arange(*args, **kw)
 
     # -- rounding & selection
